@@ -1,5 +1,6 @@
 import Cirbo.Proofs.GenWeighted
 import Cirbo.Proofs.GenBasis
+import Cirbo.Proofs.GenPow2
 /-!
 # C07 — Summation generators compute exact sums within the promised basis
 
@@ -13,7 +14,8 @@ import Cirbo.Proofs.GenBasis
 -- OBLIGATION: c07_weighted_sum_naive
 -- OBLIGATION: c07_aig_basis_sum_n_bits
 -- OBLIGATION: c07_aig_basis_weighted
--- PARTIAL: the documented gate-count bounds (4.5n-2m, 7n-3m, 5n-2m) and the value of add_sum_pow2_m1 are not proved; both are checked on the real generators by the search on every run (and add_sum_pow2_m1 is modelled and compared gate for gate). Termination within the model fuel (no "fuel" failure) is by correspondence. XAIG membership is immediate (every type of the regenerated table is a binary gate type: ttType_ok); weights are naturals in the model.
+-- OBLIGATION: c07_sum_pow2_m1
+-- PARTIAL: the documented gate-count bounds (4.5n-2m, 7n-3m, 5n-2m) are not proved; they are checked on the real generators by the search on every run. Termination within the model fuel (no "fuel" failure) is by correspondence. XAIG membership is immediate (every type of the regenerated table is a binary gate type: ttType_ok); weights are naturals in the model.
 -/
 namespace Cirbo
 
@@ -110,6 +112,18 @@ example : ((c07Host >>= fun c => (addSumNBits ["a", "b", "c", "d", "e"] (.str "a
 example : ((c07Host >>= fun c => (addSumWeighted [(0, "a"), (0, "b"), (1, "c"), (1, "d"), (3, "e")] (.enum .xaig)).run ⟨c, 0⟩).toOption.map
     fun r => r.1.map (·.1)) = some [0, 1, 2, 3] := by decide
 
+/-- **`add_sum_pow2_m1`** on arbitrary gates of a host (any basis spelling, both endiannesses): the
+returned columns — column `j` holds bits of weight `2^j` — carry exactly the number of true operand
+bits, and the weight-1 column is a single bit. -/
+theorem c07_sum_pow2_m1 {st st' : GSt} {ins : List Label} {out : List (List Label)} {basis : BasisArg} {be : Bool}
+    (h : (addSumPow2M1 ins be basis).run st = .ok (out, st')) (hw : WFS st.c) (hin : ∀ l ∈ ins, l ∈ st.c.labels)
+    {b v : Label → Bool} (hv : IsValB st.c b v) :
+    ∃ v', IsValB st'.c b v' ∧ (∀ l ∈ st.c.labels, v' l = v l) ∧ colsVal v' out = cnt v ins ∧
+      ∃ z rest, out = [z] :: rest := by
+  obtain ⟨v', h1, h2, h3⟩ := run_total h hw hv
+  obtain ⟨e1, e2⟩ := sem_addSumPow2M1 h3
+  exact ⟨v', h1, h2, by rw [e1, cnt_congr (fun l hl => h2 l (hin l hl))], e2⟩
+
 #print axioms c07_generators_only_add_fresh_gates
 #print axioms c07_tt_table_is_correct
 #print axioms c07_sum_n_bits
@@ -120,5 +134,7 @@ example : ((c07Host >>= fun c => (addSumWeighted [(0, "a"), (0, "b"), (1, "c"), 
 #print axioms c07_weighted_sum_naive
 #print axioms c07_aig_basis_sum_n_bits
 #print axioms c07_aig_basis_weighted
+
+#print axioms c07_sum_pow2_m1
 
 end Cirbo
